@@ -221,6 +221,51 @@ func resolveFuncValue(v ssa.Value, d int) *ssa.Function {
 		if x.Op != token.MUL {
 			return nil
 		}
+		// a func-typed field of a struct type of the package that is only ever assigned one function literal (stop: func() {
+		// cancel(); workers.Wait() } in the constructor, called as s.stop() by Close): that literal
+		if fa, ok := x.X.(*ssa.FieldAddr); ok && curCtx != nil && x.Parent() != nil {
+			if _, isSig := derefType(fa.Type()).Underlying().(*types.Signature); isSig {
+				if nt, ok := derefType(fa.X.Type()).(*types.Named); ok {
+					fld := fieldName(fa.X.Type(), fa.Field)
+					var only *ssa.Function
+					n, bad := 0, false
+					for _, f2 := range curCtx.Funcs {
+						if rootFn(f2).Pkg != rootFn(x.Parent()).Pkg {
+							continue
+						}
+						instrs(f2, func(_ *ssa.BasicBlock, _ int, in ssa.Instruction) {
+							st, ok := in.(*ssa.Store)
+							if !ok {
+								return
+							}
+							fa2, ok := st.Addr.(*ssa.FieldAddr)
+							if !ok || fieldName(fa2.X.Type(), fa2.Field) != fld {
+								return
+							}
+							if nt2, ok := derefType(fa2.X.Type()).(*types.Named); !ok || nt2.Origin() != nt.Origin() {
+								return
+							}
+							n++
+							mc, isMC := st.Val.(*ssa.MakeClosure)
+							if !isMC {
+								bad = true
+								return
+							}
+							f, _ := mc.Fn.(*ssa.Function)
+							if f == nil || strings.HasSuffix(f.Name(), "$bound") || (only != nil && only != f) {
+								bad = true
+								return
+							}
+							only = f
+						})
+					}
+					if n > 0 && !bad && only != nil {
+						return only
+					}
+				}
+			}
+			return nil
+		}
 		cell := cellOf(x.X)
 		if cell == nil {
 			return nil
